@@ -90,6 +90,9 @@ def elemCounts (e : Elem) : List Nat := e.map List.length
 def Vec.newMemorySize (v : Vec) (n b : Nat) : Nat :=
   if v.fixedLoc then b + v.loc.stride * n else needed n b (elemSize v.ps v.fs)
 
+/-- the public constructors (`vector.hpp:93-125`): lists without VaryingSize take no payload budget -/
+def ctorBytes (ps : List Param) (bytes : Nat) : Nat := if isFixedOrPlain ps then 0 else bytes
+
 /-- construction (`vector.hpp:359-367`) -/
 def Vec.new (ps : List Param) (fs : List Nat) (cap bytes : Nat) (junk : Nat → Nat) : Vec :=
   let es := elemSize ps fs
